@@ -1,9 +1,13 @@
-"""C20 - eav CLI: robust on any file, one verdict per line, agrees with the library.
-Decided: robustness (R20.1 offset reads and every write into the static echo buffer are guarded; R20.2 no abort or
-assert is reachable from main) and verdict structure (R20.3 exactly one PASS/FAIL per non-comment line, on the
-library's decision for the trimmed view under eav_init defaults, FAIL followed by eav_errstr; R20.4 trimming order).
-Declined: "a clean line is echoed unchanged" (a statement about sanitize_utf8's look-ahead copying loop over a static
-decoder; listed in the evidence as not decided)."""
+"""C20 - eav CLI: robust on any file, one verdict per line, agrees with the library, clean lines echoed unchanged.
+R20.1 offset reads guarded; every write into the echo buffer guarded against the buffer's capacity (EchoBuffer model:
+      static array, or static pointer/capacity pair grown by a NULL-tested realloc); escape width sign-aware
+R20.2 no abort / assert reachable from main
+R20.3 exactly one PASS/FAIL per non-comment line, on the library's decision for the trimmed view under eav_init
+      defaults, followed by the echo of that view; FAIL followed by eav_errstr
+R20.4 trimming order
+R20.5 the tool's own decoder accepts exactly RFC 3629 and reports character offsets (rules/decoder.py on bin/utf8_decode.c)
+R20.6 echo invariant of sanitize_utf8 on clean lines (rules/echo.py)
+R20.7 getline's (pointer, capacity) variables are written by nothing else"""
 import re
 import unitdb, cfgpaths, astutil
 from report import AnalysisBroken
@@ -93,6 +97,9 @@ def run(ck):
                 if lead and k != (1 if lead[0][2] else 0): w3.append(f'the validated pointer {view} is not the trimmed view (leading space {"present" if lead[0][2] else "absent"})')
                 su = [e for e in ev if e[0] == 'call' and e[1] == 'sanitize_utf8']
                 if su and su[0][2][0] != view: w3.append(f'the echoed string {su[0][2][0]} is not the validated view {view}')
+                if su and su[0][2][1] != ln: w3.append(f'the echo is given length {su[0][2][1]}, the validated view has length {ln}')
+                if not su or len(verd[0][2]) < 3 or verd[0][2][2] != su[0][3] or not re.fullmatch(r'"(PASS|FAIL): %s\\n"', verd[0][2][1]):
+                    w3.append(f'the verdict line {verd[0][2][1:]} does not print the echo of the validated view after the verdict')
                 if S is None: w3.append(f'length is not derived from strlen of the line buffer the view {view} points into')
                 else:
                     sym, k0 = S
@@ -163,33 +170,36 @@ def run(ck):
     r3.instance('bin/main.c:main', ok=not w, wclass='main', what='; '.join(sorted(set(w))))
     ck.analysed(functions=['bin/main.c:main', 'bin/main.c:parse_file', 'bin/main.c:sanitize_utf8'])
     # ---- R20.1b sanitize_utf8 buffer
-    eng, sp = cfgpaths.summarise(tu, 'sanitize_utf8')
-    size = None
-    for d in astutil.find(tu.fn('sanitize_utf8'), 'VarDecl'):
-        if d['name'] == 'sanitized':
-            m = re.fullmatch(r'char\[(\d+)\]', d['type']['qualType']); size = int(m.group(1)) if m else None
-    if size is None: raise AnalysisBroken('static echo buffer `sanitized` not found')
+    eng, sp = cfgpaths.summarise(tu, 'sanitize_utf8', open_paths=True)
+    model = EchoBuffer(tu)
     bad = {}; n = 0
     for p in sp:
+        bm = model.on_path(p)
+        for why in bm['problems']: bad.setdefault(why, where(bm['at']) if bm['at'] else '?')
+        if bm['buf'] is None: continue                 # allocation failed on this path: nothing may be written (checked by on_path)
+        B, cap, lo = bm['buf'], bm['cap'], bm['min']
         for k, e in enumerate(p.events):
-            if e[0] == 'call' and e[1] == 'memcpy' and e[2][0].startswith('(sanitized + '):
+            if e[0] == 'call' and e[1] == 'memcpy' and e[2][0].startswith(f'({B} + '):
                 n += 1
-                pos = e[2][0][len('(sanitized + '):-1]; L = e[2][2]
-                if not guard(p, k, pos, L, size): bad.setdefault(f'memcpy({e[2][0]}, ..., {L}) is not dominated by a guard (pos + {L}) < {size}', where(e[4]))
+                pos = e[2][0][len(f'({B} + '):-1]; L = e[2][2]
+                if not guard(p, k, pos, L, cap, lo): bad.setdefault(f'memcpy({e[2][0]}, ..., {L}) is not dominated by a guard (pos + {L}) < {cap}', where(e[4]))
             if e[0] == 'set' and e[1] == 'pos' and e[2] != '0':
                 n += 1
                 m = re.fullmatch(r'\((.+) \+ (.+)\)', e[2])
-                if not (m and guard(p, k, m.group(1), m.group(2), size)): bad.setdefault(f'pos := {e[2]} is not known to stay below {size}', where(e[3]))
-            if e[0] == 'set' and e[1].startswith('sanitized['):
+                if not (m and guard(p, k, m.group(1), m.group(2), cap, lo)): bad.setdefault(f'pos := {e[2]} is not known to stay below {cap}', where(e[3]))
+            if e[0] == 'set' and e[1].startswith(f'{B}['):
                 n += 1
-                ix = e[1][len('sanitized['):-1]
-                if not (ix == '0' or re.fullmatch(r"pos@L\d+'*", ix) or pos_bounded(p, k, ix, size)): bad.setdefault(f'{e[1]} := ...: index not known to be below {size}', where(e[3]))
+                ix = e[1][len(f'{B}['):-1]
+                if not ((ix == '0' and lo >= 1) or re.fullmatch(r"pos@L\d+'*", ix) or pos_bounded(p, k, ix, cap, lo)): bad.setdefault(f'{e[1]} := ...: index not known to be below {cap}', where(e[3]))
             if e[0] == 'call' and e[1] == 'sprintf':
                 n += 1
                 if e[2][1] != '"0x%02x"' or e[2][0] != 'buf': bad.setdefault(f'sprintf({", ".join(e[2])}): unbounded formatted write', where(e[4]))
+            if e[0] == 'call' and e[1] == 'memcpy' and not e[2][0].startswith(f'({B} + ') and ('sanitized' in e[2][0] or 'realloc' in e[2][0]):
+                bad.setdefault(f'memcpy into {e[2][0]}, which is not the echo buffer of this path ({B})', where(e[4]))
     for why, at in bad.items(): r1.instance('bin/main.c:sanitize_utf8', ok=False, wclass='echo-buffer:' + why.split('(')[0][:20], what=f'{why} ({at})')
     for _ in range(max(n - len(bad), 0)): r1.instance('bin/main.c:sanitize_utf8', ok=True)
     if n < 10: raise AnalysisBroken('sanitize_utf8: buffer writes not found')
+    ck.sample({'echo_buffer': model.describe()})
     # ---- R20.7 getline's contract: (*lineptr, *n) are the buffer and its allocated size, owned by getline between calls
     r7 = ck.rule('R20.7', 'parse_file: the pointer and the capacity handed to getline (&line, &n) start as NULL / 0 and are written by nothing but getline (a capacity of 0 with a live buffer makes getline allocate a new one and leak the old)', 2)
     pf = tu.fn('parse_file')
@@ -225,8 +235,11 @@ def run(ck):
     # accept every well-formed sequence and to report the byte index of each character
     if dec is None: raise AnalysisBroken('bin/utf8_decode.c is not built')
     from rules import decoder
-    decoder.run(ck, dec, site='bin/utf8_decode.c:utf8_decode_next', ids=('R20.5a', 'R20.5b', 'R20.5c'), fld='')
-    ck.undecided('echo clause: that a well-formed line without control characters is echoed unchanged (sanitize_utf8\'s look-ahead copy loop over the static decoder is not extracted); stdio/getline behaviour')
+    dsum = decoder.run(ck, dec, site='bin/utf8_decode.c:utf8_decode_next', ids=('R20.5a', 'R20.5b', 'R20.5c'), fld='', end_keeps_byte=True)
+    # ---- R20.6 the echo clause
+    from rules import echo
+    echo.run(ck, tu, model, end_value=dsum.get('end'))
+    ck.undecided('stdio/getline behaviour; what sanitize_utf8 prints for lines that are NOT clean (escapes, truncation of ill-formed lines) beyond memory safety')
     ck.assume('getline returns a NUL-terminated buffer of `read` bytes; files are processed from the last argument to the first (the statement quantifies over single files)')
     ck.notes.append('bin/main.h also defines sanitize(), which has an unbounded static buffer but is not reachable from main (used by tests only): out of scope.')
 
@@ -241,19 +254,26 @@ def int_off(expr, sym):
         m += int(g.group(2)); e = g.group(1)
 
 
-def guard(p, k, pos, L, size):
-    """a branch before event k that the path left on the side where  pos + K < size  with K >= L"""
+def guard(p, k, pos, L, cap, lo=None):
+    """a branch before event k that the path left on the side where  pos + K < cap  with K >= L.  cap is the capacity of
+    the echo buffer on this path: an integer (static array) or the rendered value of the capacity variable; lo is a
+    constant the capacity is known not to be below"""
+    if lo is None: lo = cap if isinstance(cap, int) else 0
+    def fits(S, strict):
+        """S (< or <=) cap ?"""
+        if isinstance(cap, int): return S.isdigit() and (int(S) <= cap if not strict else int(S) < cap)
+        return S == cap and not strict
     if pos.isdigit() and re.fullmatch(r"strlen#\d+'*", L):
-        # constant position: the guard was folded away by the analyser; decide it here
+        # constant position: decide it against the least capacity
         w = hex_width(p, k)
-        if w is not None: return int(pos) + w < size
+        if w is not None and int(pos) + w < lo: return True
     for e in reversed(p.events[:k]):
         if e[0] == 'set' and e[1] == 'pos': break
         if e[0] != 'cond': continue
-        m = re.fullmatch(r'\(\(' + re.escape(pos) + r' \+ (.+)\) (>=|>|<|<=) (\d+)\)', e[1])
+        m = re.fullmatch(r'\(\(' + re.escape(pos) + r' \+ (.+)\) (>=|>|<|<=) (.+)\)', e[1])
         if not m: continue
-        K, op, S = m.group(1), m.group(2), int(m.group(3))
-        bound_ok = (op == '>=' and not e[2] and S <= size) or (op == '>' and not e[2] and S < size) or (op == '<' and e[2] and S <= size) or (op == '<=' and e[2] and S < size)
+        K, op, S = m.group(1), m.group(2), m.group(3)
+        bound_ok = (op == '>=' and not e[2] and fits(S, False)) or (op == '>' and not e[2] and fits(S, True)) or (op == '<' and e[2] and fits(S, False)) or (op == '<=' and e[2] and fits(S, True))
         if not bound_ok: continue
         if K == L: return True
         if K.isdigit() and re.fullmatch(r"strlen#\d+'*", L):
@@ -277,12 +297,91 @@ def hex_width(p, k):
     return 4 if (small and nonneg) else 10
 
 
-def pos_bounded(p, k, ix, size):
-    if ix.isdigit(): return int(ix) < size
+def pos_bounded(p, k, ix, cap, lo=None):
+    if lo is None: lo = cap if isinstance(cap, int) else 0
+    if ix.isdigit(): return int(ix) < lo
     m = re.fullmatch(r'\((.+) \+ (.+)\)', ix)
     if m:
         # the index is the position after a guarded copy: find the assignment pos := ix and check its guard
         for j in range(k - 1, -1, -1):
             e = p.events[j]
-            if e[0] == 'set' and e[1] == 'pos' and e[2] == ix: return guard(p, j, m.group(1), m.group(2), size)
+            if e[0] == 'set' and e[1] == 'pos' and e[2] == ix: return guard(p, j, m.group(1), m.group(2), cap, lo)
     return False
+
+
+class EchoBuffer:
+    """what `sanitized` is on a path of sanitize_utf8, and how many bytes it has.
+    static array  char sanitized[N]           -> ('sanitized', N, N)
+    static pointer grown on demand            -> (realloc#k, NEED, c) after  if (NEED > cap) { g = realloc(sanitized, NEED);
+                                                 if (!g) return ...; sanitized = g; cap = NEED; },
+                                                 ('sanitized@static', 'cap@static', c) on the path where NEED <= cap,
+    c being the constant term of NEED = a*length + c (length is unsigned).  The pair invariant "sanitized has cap bytes"
+    holds initially (NULL, 0) and is preserved iff pointer and capacity are only ever assigned together, from a successful
+    realloc of exactly the stored size; the rule checks that on every path."""
+    def __init__(self, tu):
+        self.kind = None; self.size = None; self.capvar = None
+        for d in astutil.find(tu.fn('sanitize_utf8'), 'VarDecl'):
+            if d['name'] == 'sanitized':
+                t = d['type']['qualType']
+                m = re.fullmatch(r'char\[(\d+)\]', t)
+                if m: self.kind = 'array'; self.size = int(m.group(1))
+                elif re.fullmatch(r'char \*', t) and d.get('storageClass') == 'static':
+                    self.kind = 'pointer'
+                    ini = [x for x in d.get('inner', []) if 'Comment' not in x.get('kind', '')]
+                    self.ptr_init_null = bool(ini) and not any(m_.get('kind') in ('DeclRefExpr', 'CallExpr') for m_ in astutil.walk(ini[0]))
+        if self.kind is None: raise AnalysisBroken('echo buffer `sanitized` (static array or static pointer) not found in sanitize_utf8')
+        self.tu = tu
+
+    def describe(self):
+        return {'kind': self.kind, 'size': self.size, 'capacity_variable': self.capvar}
+
+    def on_path(self, p):
+        if self.kind == 'array': return {'buf': 'sanitized', 'cap': self.size, 'min': self.size, 'problems': [], 'at': None}
+        probs = []; at = None
+        sets = [e for e in p.events if e[0] == 'set' and e[1] == 'sanitized']
+        rl = [e for e in p.events if e[0] == 'call' and e[1] == 'realloc']
+        if len(sets) > 1 or len(rl) > 1: return {'buf': None, 'cap': None, 'min': 0, 'problems': ['the echo buffer is reallocated / assigned more than once on a path'], 'at': (sets or rl)[0][-1]}
+        # the growth test
+        tests = [e for e in p.events if e[0] == 'cond' and re.fullmatch(r"\((.+) (>|>=) (\w+)@static\)", e[1])]
+        if not tests: return {'buf': None, 'cap': None, 'min': 0, 'problems': ['no growth test  NEED > capacity  before the echo buffer is used'], 'at': None}
+        t = tests[0]; mt = re.fullmatch(r"\((.+) (>|>=) (\w+)@static\)", t[1])
+        need, capvar = mt.group(1), mt.group(3)
+        if self.capvar is None:
+            d = [x for x in astutil.find(self.tu.fn('sanitize_utf8'), 'VarDecl') if x['name'] == capvar]
+            if not d or d[0].get('storageClass') != 'static': raise AnalysisBroken(f'echo buffer: the capacity variable {capvar} is not a static local')
+            ini = [x for x in d[0].get('inner', []) if 'Comment' not in x.get('kind', '')]
+            if not (ini and any(m_.get('kind') == 'IntegerLiteral' and m_.get('value') == '0' for m_ in astutil.walk(ini[0]))) or not getattr(self, 'ptr_init_null', False):
+                probs.append('the (pointer, capacity) pair does not start as (NULL, 0)')
+            self.capvar = capvar
+        elif capvar != self.capvar: probs.append(f'growth test on {capvar}, capacity variable is {self.capvar}')
+        lo = const_term(need, self.tu.params('sanitize_utf8')[1])
+        if lo is None: raise AnalysisBroken(f'echo buffer: the requested size {need} is not a*length + c')
+        capsets = [e for e in p.events if e[0] == 'set' and e[1] == capvar]
+        if t[2]:        # growth branch
+            if not rl or rl[0][2] != ('sanitized@static', need):
+                probs.append(f'growth branch does not realloc(sanitized, {need})'); at = t[-1]
+                return {'buf': None, 'cap': None, 'min': 0, 'problems': probs, 'at': at}
+            r = rl[0][3]
+            ok_branch = p.passed(r, True) or p.passed(f'({r} == NULL)', False) or p.passed(f'({r} != NULL)', True)
+            if not ok_branch:
+                # allocation failed (or untested): nothing may be stored or written through the buffer afterwards
+                i = p.events.index(rl[0])
+                if sets or capsets or any(e[0] == 'call' and e[1] in ('memcpy', 'sprintf') for e in p.events[i:]) or any(e[0] == 'set' and '[' in e[1] for e in p.events[i:]):
+                    probs.append('the result of realloc is used without a NULL test'); at = rl[0][-1]
+                return {'buf': None, 'cap': None, 'min': 0, 'problems': probs, 'at': at}
+            if not sets or sets[0][2] != r: probs.append('successful realloc is not stored in sanitized'); at = rl[0][-1]
+            if len(capsets) != 1 or capsets[0][2] != need: probs.append(f'{capvar} is not set to the reallocated size {need}'); at = rl[0][-1]
+            return {'buf': r, 'cap': need, 'min': lo, 'problems': probs, 'at': at}
+        # no growth:  NEED <= capacity  (for `>`), so the old buffer has at least NEED >= lo bytes
+        if rl or sets or capsets: probs.append('buffer or capacity changed although the growth test failed'); at = (rl or sets or capsets)[0][-1]
+        if mt.group(2) != '>': lo = max(lo - 1, 0)
+        return {'buf': 'sanitized@static', 'cap': f'{capvar}@static', 'min': lo, 'problems': probs, 'at': at}
+
+
+def const_term(expr, length):
+    """expr = a*length + c with a >= 0, c >= 0 (rendered with parentheses)  ->  c, else None"""
+    from rules.echo import lin_parse
+    try: v = lin_parse(expr, {length: {'LEN': 1}})
+    except (KeyError, ValueError): return None
+    if not set(v) <= {'LEN', ''} or v.get('LEN', 0) < 0 or v.get('', 0) < 0: return None
+    return v.get('', 0)
